@@ -301,6 +301,53 @@ func runC04(c *Ctx) {
 			c.mu.Lock()
 			deleted = append(deleted, id)
 			c.mu.Unlock()
+		case "delete-get-race":
+			// the own live session is deleted while a listening stream for it is being (re)opened:
+			// whichever order the server serialises them in, once both have been answered and the
+			// DELETE said 200 the session has no open stream
+			if !stateful || class != "live" || !getEnabled {
+				return
+			}
+			if a.stream != nil {
+				a.stream.Close()
+				a.stream = nil
+			}
+			var delStatus int
+			var gs *RawStream
+			del := s.Go(fmt.Sprintf("%s/del-%s", a.name, c.Nonce("")), func() {
+				if r := rawDo(c, ctx, "DELETE", url, withSession(nil, id), nil); r.Err == nil {
+					delStatus = r.Status
+				}
+			})
+			get := s.Go(fmt.Sprintf("%s/get-%s", a.name, c.Nonce("")), func() {
+				gs, _ = rawOpenStream(c, a.name+"/get"+c.Nonce(""), "GET", url, withSession(map[string]string{"Accept": "text/event-stream"}, id), nil)
+			})
+			s.WaitTasks(5*time.Minute, del, get)
+			if delStatus != 200 {
+				s.Violate(fmt.Sprintf("C04|status|%s|delete-get-race|got=%d", mode, delStatus), "DELETE of a live session (concurrent with a GET for it) answered %d", delStatus)
+			}
+			delete(live, id)
+			a.sid = ""
+			c.mu.Lock()
+			deleted = append(deleted, id)
+			c.mu.Unlock()
+			if gs != nil {
+				switch gs.Status {
+				case 200:
+					for i := 0; i < 50 && !gs.Ended(); i++ {
+						s.Settle(time.Millisecond)
+					}
+					if !gs.Ended() {
+						s.Violate("C04|stream-survives-delete|"+mode+"|reopened-during-delete", "a listening stream opened while the session was being deleted is still open after DELETE returned 200")
+					}
+					s.Probe("c04.delete_get_race.stream_opened")
+				case 404:
+					s.Probe("c04.delete_get_race.refused")
+				default:
+					s.Violate(fmt.Sprintf("C04|status|%s|delete-get-race-get|got=%d", mode, gs.Status), "GET concurrent with the DELETE of its session answered %d (want 200 or 404)", gs.Status)
+				}
+				gs.Close()
+			}
 		case "delete":
 			r := rawDo(c, ctx, "DELETE", url, withSession(nil, id), nil)
 			if !stateful {
@@ -332,7 +379,7 @@ func runC04(c *Ctx) {
 
 	nActors := 1 + t.Draw(4)
 	sequential := nActors == 1
-	opsAll := []string{"initialize", "request", "request", "notification", "response-post", "get", "stream-close", "delete", "delete-race"}
+	opsAll := []string{"initialize", "request", "request", "notification", "response-post", "get", "stream-close", "delete", "delete-race", "delete-get-race"}
 	classes := []string{"none", "live", "live", "live", "deleted", "never", "foreign"}
 	var tasks []*sim.Task
 	var plan [][]string
@@ -363,6 +410,24 @@ func runC04(c *Ctx) {
 		}))
 	}
 	c.SetPlan("actors", plan)
+	// somebody keeps asking the server for its live sessions while the histories run: what it is
+	// told must be ids that were issued, and asking must not disturb what is reported at the end
+	if t.Bool(60) {
+		stop := false
+		poller := s.Go("poller", func() {
+			for i := 0; i < 200 && !stop; i++ {
+				if _, err := w.Srv.GetActiveSessions(); err != nil && (stateful || mode == "nosession") {
+					s.Violate("C04|active-sessions-error|"+mode, "GetActiveSessions failed: %v", err)
+				}
+				s.Yield("poller#next")
+				if c.T.Bool(30) {
+					s.Sleep(time.Millisecond)
+				}
+			}
+		})
+		defer func() { stop = true; _ = poller }()
+		s.Probe("c04.poller")
+	}
 	for _, a := range s.WaitTasks(40*time.Minute, tasks...) {
 		s.Violate("C04|stuck|"+mode, "%s did not finish", a.Name)
 	}
